@@ -51,7 +51,7 @@ def run(pid, tier, seed):
         # words of the full vocabulary substituted class-preservingly for the abstract ones
         same_class = {"wtmp": ["wtmp", "utmp", "btmp"], "utmpx": ["utmpx", "wtmpx", "btmpx"], "gz": ["gz", "gzip"],
                       "xz": ["xz", "xzip"], "1": ["1", "20230101", "007", "42"], "old": ["old", "bak", "orig", "backup"],
-                      "foo": ["foo", "host", "server1"], "bin": ["bin", "png", "dll", "exe"], "log": ["log", "txt", "text"],
+                      "foo": ["foo", "host", "server1", "access_log", "log_media", "error_log"], "bin": ["bin", "png", "dll", "exe"], "log": ["log", "txt", "text"],
                       "messages": ["messages", "syslog", "dmesg", "kernlog"]}
         lines, meta = [], []
         spellings = 2 if tier == "quick" else 4
